@@ -5,6 +5,7 @@ import (
 	"go/ast"
 	"go/token"
 	"go/types"
+	"golang.org/x/tools/go/cfg"
 	"sort"
 	"strings"
 )
@@ -34,7 +35,7 @@ func checkC08(p *Prog, r *Report) {
 	r.rule("C08.K3", "CFB law, decryption: as K2 with C = src, and E(src[j]) is computed before dst[j] is written (dst may alias src) into a register other than the live one", 2)
 	r.rule("C08.K5", "encrypt/decrypt dispatch on BlockSize() to the function of that width (8, 16), anything else panics; encbuf has bs and decbuf 2*bs bytes", 3)
 	r.rule("C08.K6", "stream, xor and null ciphers: Decrypt is the same transformation as Encrypt (an involution), and the untransformed part is copied when dst != src", 3)
-	r.rule("C08.K7", "AEAD: Seal is reached only when dst != nil and cap(dst)-len(dst) >= len(plaintext)+Overhead(); Open decrypts into ciphertext[:0]", 3)
+	r.rule("C08.K7", "AEAD: Seal is reached only when dst != nil and cap(dst)-len(dst) >= len(plaintext)+Overhead(); its result is stored back into the packet it was sealed from and that packet is read afterwards; Open decrypts into ciphertext[:0]", 5)
 	r.rule("C08.K8", "the feedback registers encbuf/decbuf are read and written only under encMu/decMu (C14.L1)", 4)
 
 	// ---- K1: initialVector
@@ -316,6 +317,96 @@ func checkC08(p *Prog, r *Report) {
 			return true
 		})
 		r.check(ok, "C08.K7", seal.Name, p.Pos(seal.Node), "guard of aead.Seal", "dst != nil && cap(dst)-len(dst) >= len(plaintext)+Overhead()", "aead.Seal can be reached with a destination that is nil or too small: it silently allocates a new slice, and the packet that is sent (the original buffer) is not the sealed one; facts: "+facts)
+		// the sealed packet (nonce + ciphertext + tag, longer than the input) replaces the packet that is transmitted
+		sealM := p.Method("aeadCrypt", "Seal")
+		nSeal := 0
+		for _, s := range p.CallsTo(sealM) {
+			fi := rootFuncInfo(s.Fn)
+			nSeal++
+			cf := p.CFG(fi)
+			construct := "result of Seal in " + fi.Name
+			as, isA := p.parents[s.Call].(*ast.AssignStmt)
+			if !isA || len(as.Lhs) != 1 || len(as.Rhs) != 1 {
+				r.bad("C08.K7", fi.Name, p.Pos(s.Call), construct, "the slice returned by Seal is not stored: the packet that is sent is the unsealed buffer header (without the authentication tag)", "")
+				continue
+			}
+			fs := p.FactsOf(fi).AtNode(s.Call)
+			dst := fs.Resolve(p.Term(s.Call.Args[0]))
+			root := dst
+			for root.Op == "slice" {
+				root = root.Args[0]
+			}
+			lt := p.Term(as.Lhs[0])
+			okRoot := lt.Key() == root.Key() || fs.Resolve(lt).Key() == root.Key()
+			okLive := true
+			why := ""
+			if id, isId := ast.Unparen(as.Lhs[0]).(*ast.Ident); isId {
+				v, _ := p.Info.Uses[id].(*types.Var)
+				if v == nil {
+					v, _ = p.Info.Defs[id].(*types.Var)
+				}
+				// a read of v reachable from here before v is re-bound
+				pt, _ := cf.PointOf(as)
+				res := cf.FindPath(PathQuery{From: Point{pt.B, pt.I + 1},
+					IsTarget: func(n ast.Node, _ Point) bool {
+						read := false
+						ast.Inspect(n, func(x ast.Node) bool {
+							if _, isLit := x.(*ast.FuncLit); isLit {
+								return false
+							}
+							if a2, ok := x.(*ast.AssignStmt); ok {
+								for _, rr := range a2.Rhs {
+									if mentionsVars(p, rr, map[*types.Var]bool{v: true}) {
+										read = true
+									}
+								}
+								for _, l := range a2.Lhs {
+									if _, plain := ast.Unparen(l).(*ast.Ident); !plain && mentionsVars(p, l, map[*types.Var]bool{v: true}) {
+										read = true
+									}
+								}
+								return false
+							}
+							if i2, ok := x.(*ast.Ident); ok && p.Info.Uses[i2] == v {
+								read = true
+							}
+							return true
+						})
+						return read
+					},
+					IsBarrier: func(n ast.Node, _ Point) bool {
+						if a2, ok := n.(*ast.AssignStmt); ok {
+							for _, l := range a2.Lhs {
+								if i2, ok := ast.Unparen(l).(*ast.Ident); ok && (p.Info.Uses[i2] == v || p.Info.Defs[i2] == v) {
+									return true
+								}
+							}
+						}
+						return false
+					},
+					OnBlock: func(b *cfg.Block) (bool, bool) {
+						// the header of a range loop re-binds its key/value variables
+						if b.Kind == cfg.KindRangeLoop {
+							if rs, ok := b.Stmt.(*ast.RangeStmt); ok {
+								for _, kv := range []ast.Expr{rs.Key, rs.Value} {
+									if i2, ok := kv.(*ast.Ident); ok && p.Info.Defs[i2] == v {
+										return false, true
+									}
+								}
+							}
+						}
+						return false, false
+					}})
+				okLive = res.Found
+				if !okLive {
+					why = "the result is assigned to " + id.Name + ", which is not read again before it is re-bound (a range value variable is a copy of the element): "
+				}
+			}
+			r.check(okRoot && okLive, "C08.K7", fi.Name, p.Pos(s.Call), construct, "stored back into the packet it was sealed from ("+exprString(as.Lhs[0])+"), which is read afterwards", why+"the sealed packet does not replace the one that is transmitted: the datagram goes out with its old length, i.e. without the authentication tag, and the peer's Open fails (root of dst: "+pretty(root.Key())+", stored to: "+pretty(lt.Key())+")")
+		}
+		if nSeal == 0 {
+			r.bad("C08.K7", "aeadCrypt.Seal", "-", "result of Seal", "no call of aeadCrypt.Seal found in the output path", "")
+		}
 		// Open into ciphertext[:0]
 		open := p.Method("aeadCrypt", "Open")
 		n := 0
